@@ -17,3 +17,6 @@ if ! build vcheck-purego "verif purego"; then
 else
   echo "pre-C20: built build/vcheck-purego"
 fi
+# race-detector build of the portable variant (re-entrancy pass of the purego code's own statics)
+rm -f build/vcheck-purego-race
+build vcheck-purego-race "verif purego" -race || echo "purego race variant does not build"
